@@ -1394,6 +1394,32 @@ func c11RunConcOnce(c c11ConcCase, rep int) (res verifkit.Result, labels map[str
 	}
 	obs := rig.observe()
 
+	// Sessions whose login completed (LoginSuccess sent, proxy waits for the next
+	// packet) and that are still connected are logged-in players. No two of them
+	// may share a uuid (in kick mode the older one is disconnected first), and
+	// with kicking disabled no two may share a case-insensitive name.
+	var online []*c11Sess
+	for _, s := range rig.sessions() {
+		if s.conn.isClosed() {
+			continue
+		}
+		select {
+		case <-s.conn.idle:
+			online = append(online, s)
+		default:
+		}
+	}
+	for i, a := range online {
+		for _, b := range online[i+1:] {
+			if a.id == b.id {
+				return verifkit.Fail("duplicate-accepted:uuid", "rep %d: sessions %d (%s) and %d (%s) both completed their login with uuid %s and both are still connected", rep, a.idx, a.name, b.idx, b.name, a.id), labels, nt
+			}
+			if !c.Kick && strings.EqualFold(a.name, b.name) {
+				return verifkit.Fail("duplicate-accepted:name", "rep %d: sessions %d (%s/%s) and %d (%s/%s) both completed their login under the same case-insensitive name and both are still connected (kicking disabled)", rep, a.idx, a.name, a.id, b.idx, b.name, b.id), labels, nt
+			}
+		}
+	}
+
 	// some linearization of the batch must explain the final state
 	var first *verifkit.Violation
 	found := c11Permute(len(ops), func(order []int) bool {
@@ -1441,7 +1467,8 @@ func c11RunConcOnce(c c11ConcCase, rep int) (res verifkit.Result, labels map[str
 			return verifkit.Fail("lost-registration:foreign-teardown", "session %d (%s/%s) completed its login, is still connected and never disconnected, but Player(uuid) does not find it. %s", s.idx, s.name, s.id, state), labels, nt
 		}
 		// with kicking disabled names are unique, so the name must still lead to it
-		if !c.Kick && obs.byName[s.name] != s.idx {
+		// ... and in kick mode unless a newer player of that name took the entry over
+		if (!c.Kick && obs.byName[s.name] != s.idx) || (c.Kick && obs.byName[s.name] == -1) {
 			return verifkit.Fail("lost-registration:foreign-teardown", "session %d (%s/%s) completed its login, is still connected and never disconnected, but PlayerByName(%q) returns session %d (-1 = nobody): its name entry was removed by somebody else. %s", s.idx, s.name, s.id, s.name, obs.byName[s.name], state), labels, nt
 		}
 	}
